@@ -22,6 +22,10 @@ def _convert_name_to_convention(
     if name == "_" or naming_convention == NamingConvention.PYTHON:
         return name
 
+    if "." in name:
+        # Qualified names (package paths) are converted segment by segment
+        return ".".join(_convert_name_to_convention(part, naming_convention, is_class_name) for part in name.split("."))
+
     # Count underscores in front and behind the name
     underscore_count_start = len(name) - len(name.lstrip("_"))
     underscore_count_end = len(name) - len(name.rstrip("_"))
